@@ -33,8 +33,11 @@ struct St {
   std::map<const VarDecl *, Sym> hv;     // handle variable -> symbol ("" unknown)
   std::map<const VarDecl *, Sym> nodes;  // unpacked_node* variable -> forest symbol
   std::map<Sym, Sym> rep;                // union-find of equated symbols
+  Sym pendA, pendB;                      // two handles of these (not yet equated) forests were found equal on this path
+  const Stmt *pendAt = nullptr;
   std::string key() const {
     std::ostringstream os;
+    os << pendA << "|" << pendB << "|";
     for (auto &p : hv) os << (const void *)p.first << "=" << p.second << ";";
     for (auto &p : nodes) os << "n" << (const void *)p.first << "=" << p.second << ";";
     for (auto &p : rep) os << p.first << "~" << p.second << ";";
@@ -197,7 +200,15 @@ struct An {
       report("ftype.mix", At, what + "(" + exprText(Ctx, Arg) + ")", "expression `" + exprText(Ctx, Arg) + "` belongs to " + have + " but is used with " + need + " in " + what);
   }
   void define(St &S, const Expr *Target, const Sym &sym) {
-    if (const VarDecl *VD = handleVar(Target)) { S.hv[VD] = sym; if (!sym.empty()) nTyped++; }
+    if (const VarDecl *VD = handleVar(Target)) { S.hv[VD] = sym; if (!sym.empty()) nTyped++; if (exitRole.count(VD)) effect(S, Target); }
+  }
+  // a result is produced / the function returns: an unresolved cross-forest handle equality was acted upon
+  void effect(St &S, const Stmt *At) {
+    if (S.pendA.empty()) return;
+    if (!S.same(S.pendA, S.pendB))
+      report("ftype.mix", S.pendAt ? S.pendAt : At, "eq(" + S.pendA + "," + S.pendB + ")",
+             "handles of " + S.pendA + " and " + S.pendB + " are compared for equality and a result is produced on that path without establishing that the two forests are the same object");
+    S.pendA.clear(); S.pendB.clear(); S.pendAt = nullptr;
   }
 
   // ---- class facts ------------------------------------------------------------------------------
@@ -525,9 +536,38 @@ struct An {
     if (auto *BO = dyn_cast<BinaryOperator>(X)) {
       if (BO->getOpcode() != BO_Assign) return;
       if (const VarDecl *NV = nodeVar(BO->getLHS())) { if (NV->getType()->isPointerType()) noteNodeInit(S, NV, BO->getRHS(), X); return; }
-      if (const VarDecl *HV = handleVar(BO->getLHS())) { S.hv[HV] = symOf(S, BO->getRHS()); if (!S.hv[HV].empty()) nTyped++; return; }
+      if (const VarDecl *HV = handleVar(BO->getLHS())) { S.hv[HV] = symOf(S, BO->getRHS()); if (!S.hv[HV].empty()) nTyped++; if (exitRole.count(HV)) effect(S, X); return; }
       return;
     }
+  }
+
+  // does the `&&` conjunction that contains atom At also contain a forest equality that equates symbols a and b?
+  bool conjunctionEquates(const Expr *At, const Sym &a, const Sym &b, const St &S) {
+    const Expr *Top = At;
+    DynTypedNode N = DynTypedNode::create(*At);
+    for (int depth = 0; depth < 16; depth++) {
+      auto Ps = Ctx.getParents(N);
+      if (Ps.empty()) break;
+      const Expr *PE = Ps[0].get<Expr>();
+      if (!PE) break;
+      if (auto *BO = dyn_cast<BinaryOperator>(PE)) { if (BO->getOpcode() != BO_LAnd) break; Top = BO; }
+      else if (!isa<ParenExpr>(PE) && !isa<ImplicitCastExpr>(PE)) break;
+      N = Ps[0];
+    }
+    std::vector<const Expr *> stack{Top};
+    while (!stack.empty()) {
+      const Expr *E = strip(stack.back());
+      stack.pop_back();
+      auto *BO = dyn_cast_or_null<BinaryOperator>(E);
+      if (!BO) continue;
+      if (BO->getOpcode() == BO_LAnd) { stack.push_back(BO->getLHS()); stack.push_back(BO->getRHS()); continue; }
+      if (BO->getOpcode() == BO_EQ && isForestExpr(BO->getLHS()) && isForestExpr(BO->getRHS())) {
+        St T = S;
+        T.unite(forestSym(BO->getLHS()), forestSym(BO->getRHS()));
+        if (T.same(a, b)) return true;
+      }
+    }
+    return false;
   }
 
   bool refine(St &N, const Expr *C0, bool truth) {
@@ -541,9 +581,23 @@ struct An {
       const Expr *L = strip(BO->getLHS()), *R = strip(BO->getRHS());
       if (op == BO_EQ || op == BO_NE) {
         bool eq = (op == BO_EQ) == truth;
-        if (isForestExpr(L) && isForestExpr(R)) { if (eq) { Sym a = forestSym(L), b = forestSym(R); if (!a.empty() && !b.empty()) N.unite(a, b); } return true; }
+        if (isForestExpr(L) && isForestExpr(R)) {
+          Sym a = forestSym(L), b = forestSym(R);
+          if (eq) { if (!a.empty() && !b.empty()) N.unite(a, b); }
+          else if (!N.pendA.empty()) { St T = N; T.unite(a, b); if (T.same(N.pendA, N.pendB)) { N.pendA.clear(); N.pendB.clear(); N.pendAt = nullptr; } }   // the guarded shortcut is not taken
+          return true;
+        }
         auto isTermConst = [&](const Expr *E) { if (isa<IntegerLiteral>(E)) return true; if (auto *U = dyn_cast<UnaryOperator>(E)) return U->getOpcode() == UO_Minus; if (auto *DR = dyn_cast<DeclRefExpr>(E)) return DR->getDecl()->getNameAsString().rfind("OMEGA_", 0) == 0; return false; };
         if (eq) { if (isTermConst(L) && handleVar(R)) star(R); if (isTermConst(R) && handleVar(L)) star(L); }
+        // `A == B` taken as true for two handles of different forests: equal handle numbers mean nothing unless the
+        // forests are the same object.  Remember it; an effect (result written, return) while it is unresolved is reported.
+        if (eq && handleVar(L) && handleVar(R)) {
+          Sym a = symOf(N, L), b = symOf(N, R);
+          if (!a.empty() && !b.empty() && a != STAR && b != STAR) {
+            check(BO);
+            if (!N.same(a, b)) { N.pendA = a; N.pendB = b; N.pendAt = BO; }
+          }
+        }
         return true;
       }
       if ((op == BO_LE || op == BO_LT) && truth && handleVar(L)) { Expr::EvalResult ER; if (R->EvaluateAsInt(ER, Ctx)) { long v = ER.Val.getInt().getExtValue(); if ((op == BO_LE && v <= 0) || (op == BO_LT && v <= 1)) star(L); } return true; }
@@ -592,7 +646,7 @@ struct An {
       for (const CFGElement &E : *B) if (auto CS = E.getAs<CFGStmt>()) {
         const Stmt *X = CS->getStmt();
         if (isa<CXXThrowExpr>(X)) { thrown = true; break; }
-        if (auto *RS = dyn_cast<ReturnStmt>(X)) { (void)RS; }
+        if (isa<ReturnStmt>(X)) effect(S, X);
         stmt(S, X);
       }
       if (thrown || B->hasNoReturnElement()) continue;
